@@ -159,7 +159,11 @@ func (n *verifNC) Ping(context.Context, string, byte) (time.Duration, string, er
 }
 func (n *verifNC) MaxForwardingHops() byte { return 30 }
 func (n *verifNC) Status() netceptor.Status { return netceptor.Status{} }
-func (n *verifNC) Traceroute(context.Context, string) <-chan *netceptor.TracerouteResult { return nil }
+func (n *verifNC) Traceroute(context.Context, string) <-chan *netceptor.TracerouteResult {
+	c := make(chan *netceptor.TracerouteResult)
+	close(c)
+	return c
+}
 func (n *verifNC) CancelBackends()          {}
 
 // ---------------------------------------------------------------- C19: redact engine
